@@ -1133,7 +1133,12 @@ func sep(i, n int) string {
 func main() {
 	repo := flag.String("repo", "/repo", "path of the library working tree")
 	out := flag.String("out", ".", "output directory")
+	leafworker := flag.Int("leafworker", -1, "internal: produce the rows of the leaf table from this index on (subprocess of factgen)")
 	flag.Parse()
+	if *leafworker >= 0 {
+		leafWorker(*leafworker)
+		return
+	}
 	for _, s := range pkgSpecs {
 		p, err := loadPkg(*repo, s)
 		if err != nil {
@@ -1253,4 +1258,13 @@ func main() {
 	}
 	fmt.Printf("factgen: %d variables, %d accesses (%d distinct rows), %d codec methods, %d unguarded\n",
 		len(f.Vars), len(f.Accesses), len(lean.Accesses), len(f.Codecs), len(f.Unguarded))
+	// C11: what the New methods allocate (go/ast); C05: schema type x Go kind by execution of the library
+	if err := genAlloc(*out); err != nil {
+		fmt.Fprintln(os.Stderr, "factgen:", err)
+		os.Exit(1)
+	}
+	if err := genLeaf(*out); err != nil {
+		fmt.Fprintln(os.Stderr, "factgen:", err)
+		os.Exit(1)
+	}
 }
